@@ -3,6 +3,7 @@
 use crate::gen::{Peer, Profile};
 use crate::monitors as m;
 use crate::monitors2 as m2;
+use crate::monitors3 as m3;
 use crate::view::{View, Violation};
 
 pub struct PropDef {
@@ -20,6 +21,12 @@ pub struct PropDef {
     pub mode: Mode,
 }
 
+impl PropDef {
+    pub fn is_rt(&self) -> bool {
+        self.mode == Mode::RealThreads
+    }
+}
+
 #[derive(Clone, Copy, PartialEq, Debug)]
 pub enum Mode {
     /// run the scenario once, apply the monitor
@@ -28,6 +35,8 @@ pub enum Mode {
     DiffErased,
     /// run here and in the default-feature reference process, compare canonical traces (C18)
     DiffRef,
+    /// run on the real-thread engine (multi_thread runtime, OS threads, blocking API)
+    RealThreads,
 }
 
 fn no_labels(_: &View, _: &mut Vec<&'static str>) {}
@@ -579,6 +588,57 @@ pub fn get(id: &str, thorough: bool) -> Option<PropDef> {
                 tape_len: 500,
                 log_polls: false,
                 mode: Mode::Single,
+            }
+        }
+        "C17" => {
+            let mut p = Profile::base("C17");
+            p.actors = (1, 2);
+            p.clients = (1, 6);
+            p.ops = (1, 6);
+            p.w_mode = [2, 4, 3];
+            p.w_block = [2, 4, 4];
+            p.p_dep = (1, 4);
+            p.p_task_block = (1, 4);
+            p.w_how = [8, 2, 8, 2, 0];
+            p.timeouts = vec![1, 2, 5, 10, 30, 2000];
+            p.caps = vec![1, 1, 2, 3, 8, 32];
+            p.max_delay = 4;
+            p.p_delay = (1, 4);
+            p.max_yields = 1;
+            p.max_work = 6;
+            p.p_work = (1, 2);
+            p.start_sleep = 30;
+            p.p_start_sleep = (1, 2);
+            p.stop_sleep = 4;
+            p.runs = (0, 1);
+            p.run_sleep = 4;
+            p.w_stop = 2;
+            p.w_kill = 1;
+            p.w_msg_out = [20, 2, 1];
+            p.w_convert = 2;
+            p.w_routing = [3, 1, 0];
+            p.w_upgrade = 1;
+            p.w_probe = 0;
+            p.w_probeweak = 0;
+            let mut q = p.clone();
+            q.name = "C17-gated";
+            q.start_sleep = 60;
+            q.p_start_sleep = (1, 1);
+            q.caps = vec![1, 1, 2];
+            q.timeouts = vec![1, 2, 5, 10, 20];
+            q.w_block = [1, 2, 6];
+            PropDef {
+                id: "C17",
+                profiles: vec![p, q],
+                monitor: m3::c17,
+                labels: m3::c17_labels,
+                nontrivial: &["two_blocking_callers_overlap", "blocking_timeout_expired", "blocking_with_timeout_waited"],
+                rule: "1-6 clients running as OS threads, spawn_blocking closures or tokio tasks on a multi_thread runtime, issuing blocking_tell/blocking_ask with and without timeout, the deprecated aliases (with a timeout argument that must be ignored) and async calls, against live / slow / gated / full / stopped / dying actors; timeout variants are also called from inside async tasks; oracles restricted to relations that are sound under arbitrary interleaving (logical stamps, multisets, one-sided wall-clock bounds); distinct by scenario hash; non-trivial iff >=2 blocking callers overlapped or a blocking call with a timeout waited or expired",
+                quick_cases: 60,
+                thorough_cases: 500,
+                tape_len: 400,
+                log_polls: false,
+                mode: Mode::RealThreads,
             }
         }
         _ => return None,
